@@ -86,11 +86,32 @@ URLS = ["https://example.com/a.whl", "file:///tmp/x", "git+https://github.com/a/
         "https://[not-an-ip]/x", "https://exa\u2100mple.com/x", "http://user:pw@host:99999/p?q=1#f", "//x", ":", "x:y@z", "git+ssh://git@host:repo.git", "https://[v1.fe80::a]/", "HTTP://EXAMPLE.COM",
         "https://xn--nxasmq6b.com/", "https://%zz/", "a" * 300, "ftp://[", "]", "https://[::1", "https://host:port/x", "\\\\unc\\path", "C:\\x.whl", "https://é.com/x"]
 
+def long_flat(rng, tier):
+    """long but FLAT inputs (nesting depth 0 or 1): size must not turn into recursion depth, a slice bound or a numeric overflow"""
+    N = rng.choice([1200, 2500]) if tier == "quick" else rng.choice([1200, 5000, 20000])
+    atom = lambda: rng.choice(['os_name == "a"', "python_version >= '3'", '"x" in sys_platform', 'extra == "e"'])
+    marker = (" %s " % rng.choice(["and", "or"])).join(atom() for _ in range(N))
+    mixed = " ".join(atom() + rng.choice([" and", " or"]) for _ in range(N)) + " " + atom()
+    clauses = ",".join(rng.choice([">=", "!=", "<", "=="]) + "%d.%d" % (i % 97, i % 13) for i in range(N))
+    lic = (" %s " % rng.choice(["OR", "AND"])).join(rng.choice(["MIT", "Apache-2.0", "LicenseRef-x", "GPL-2.0+", "mit WITH Classpath-exception-2.0"]) for _ in range(N))
+    rel = ".".join(str(i % 10) for i in range(N))
+    loc = "1.0+" + ".".join(rng.choice(["a", "1", "b2"]) for _ in range(N))
+    tags = "-".join(".".join("t%d" % i for i in range(60)) for _ in range(3))
+    return [("Marker", marker), ("Marker", mixed), ("Requirement", "pkg; " + marker), ("Requirement", "pkg[" + ",".join("e%d" % i for i in range(N)) + "]"),
+            ("Requirement", "pkg " + clauses), ("SpecifierSet", clauses), ("SpecifierSet.contains", rel), ("canonicalize_license_expression", lic),
+            ("Version", rel), ("Version", loc), ("canonicalize_version", rel), ("Specifier", "==" + rel), ("Specifier.contains", loc),
+            ("parse_wheel_filename", "p-1.0-" + tags + ".whl"), ("canonicalize_name.validate", "a" + "-b" * N), ("is_normalized_name", "a" + "-b" * N),
+            ("parse_email.str", "\n".join("Classifier: c%d" % i for i in range(N)) + "\n"),
+            ("Metadata.from_email.str", "Metadata-Version: 2.4\nName: a\nVersion: 1\n" + "\n".join("Requires-Dist: p%d>=1" % i for i in range(N // 4)) + "\n")]
+
+
 def streams(rng, tier):
     q = tier == "quick"
     n = 500 if q else 12000
     out = []
     def add(stream, entry, s): out.append(Case(stream, "law.exc", [entry, s], kind="law"))
+    for _ in range(1 if q else 3):
+        for entry, s in long_flat(rng, tier): add("long-flat", entry, s)
     def mut(s): return gen.mutate(rng, s, MUT) if rng.random() < 0.6 else s
     for _ in range(n):
         add("version", "Version", mut(gen.spell(rng, gen.rand_v(rng))))
